@@ -27,7 +27,7 @@ def entity_bytes_flow(ctx, rule):
             for k, ev in enumerate(o.events):
                 if ev["k"] == "call" and ev["callee"].get("path") == "Entity::get_range":
                     R = ev["result"]
-                    users = [e for e in o.events[k + 1:] if e["k"] == "call" and any(a == R for a in e["args"])]
+                    users = [e for e in o.events[k + 1:] if e["k"] == "call" and any(a == R for a in e["args"]) and not e.get("inlined")]
                     good = [e for e in users if (e["callee"].get("res_path") or "").split("<")[0].rstrip(":") == adt and (e["callee"].get("res_path") or "").endswith("::new")]
                     key = (fn, ev["bb"])
                     rec = seen_sites.setdefault(key, {"ev": ev, "ok": True, "paths": 0})
